@@ -11,3 +11,4 @@ import Bmc.Proofs.C01
 #print axioms Bmc.Proofs.C01.responseMsg_wf
 #print axioms Bmc.Proofs.C01.command_answered
 #print axioms Bmc.Proofs.C01.all_commands_answered
+#print axioms Bmc.Proofs.C01.session_then_commands
